@@ -13,6 +13,14 @@ CHECKS = {
          "results are compared with Python position sets. Complete within the stated universe, silent beyond it.",
          "Trusted: the position-set reference in props/c19.py; domain restrictions listed in evidence.assumptions.",
          "DESIGN.md §3 C19"),
+ "C16": ("exploration",
+         "bounded-exhaustive enumeration of all spec-valid CIGAR strings (<=5/6 core ops x 16 clip frames x length deviations) and of all polyA/polyT positions on the real code, independent SAM walker cross-checked against pysam",
+         "Every spec-valid CIGAR up to the bound is pushed through the real get_read_blocks and, as a real pysam record, through AlignmentInfo; "
+         "exons/read blocks/cigar blocks are compared with an independent SAM walker that is itself checked against pysam on every string. "
+         "Terminal-exon trimming is run on every exon list x every internal/external tail position (stubbed finder) and on ~10^5-10^6 structured "
+         "reads through the real PolyAFinder, so reachability of bad position pairs is decided by execution.",
+         "Trusted: the SAM walker in props/c16.py (cross-checked against pysam), pysam itself. Random long CIGARs mentioned in the property's quantifier are not sampled (technique is exhaustive enumeration only).",
+         "DESIGN.md §3 C16"),
 }
 
 NOT_YET = {}
